@@ -1081,7 +1081,10 @@ class FortranBackend(BaseBackend):
 
     def _get_func_info(self, name: str, shape: tuple = (), dtype: str = 'float'):
 
-        func_info = self._funcs[name]
+        # (a copy: the entry belongs to a module-level table that all backend instances of the process share; writing the
+        # generated call / definition into it would hand the helper of this build - its precision, its argument shape - to
+        # every later build)
+        func_info = dict(self._funcs[name])
 
         # case I: generate shape-specific fortran function call
         if callable(func_info['call']):
@@ -1089,11 +1092,10 @@ class FortranBackend(BaseBackend):
             # extract unique index for input variable shape
             try:
                 shapes, indices = self._op_calls[name]
-                try:
-                    idx = shapes.index(shape)
-                    idx = indices[idx]
-                except IndexError:
-                    idx = indices[-1]
+                if shape in shapes:
+                    idx = indices[shapes.index(shape)]
+                else:
+                    idx = indices[-1] + 1
                     shapes.append(shape)
                     indices.append(idx)
             except KeyError:
